@@ -989,9 +989,65 @@ def _flag_polarity(test, fpar) -> Optional[bool]:
     return None
 
 
+
+def r5_identity_shortcut(ctx, rid):
+    """A kernel group may use the whole source vector as chain input (instead of index(var, src_indices)) only when
+    slot i of the group reads element i of the source, i.e. when its source-index list IS [0, 1, .., N-1] in slot order.
+    A test on the sorted list, on its length or on its set also accepts permutations / repeated sources and feeds the
+    edges with each other's source."""
+    import ast as _ast
+    from engine import AnalysisError as _AE
+    from engine.util import call_name as _cn
+    from engine.srcmodel import norm as _norm, walk_shallow as _ws
+    f = ctx.repo.get_func("pyrates/ir/circuit.py", "NetworkGraph._add_edge_buffer")
+    if "var" not in f.params:
+        raise _AE(f"{rid}: parameter `var` of _add_edge_buffer vanished")
+    sites = []
+    for st in _ws(f.node):
+        if isinstance(st, _ast.If):
+            for b in st.body:
+                if isinstance(b, _ast.Assign) and isinstance(b.value, _ast.Name) and b.value.id == "var" \
+                        and any(isinstance(t, _ast.Name) for t in b.targets):
+                    # the alternative branches build index(var, ...) inputs
+                    if "index(" in _ast.unparse(st):
+                        sites.append((st, b))
+    if len(sites) != 1:
+        raise _AE(f"{rid}: whole-vector shortcut of the chain input not recognised ({len(sites)} candidates)")
+    st, asg = sites[0]
+    t = st.test
+    facts = {"test": _norm(st)}
+    good = False
+    why = "the test is not an equality of the index list with range(N)"
+    if isinstance(t, _ast.Compare) and len(t.ops) == 1 and isinstance(t.ops[0], _ast.Eq):
+        sides = [t.left, t.comparators[0]]
+        rng = [x for x in sides if isinstance(x, _ast.Call) and _cn(x) in ("list", "tuple") and x.args
+               and isinstance(x.args[0], _ast.Call) and _cn(x.args[0]) == "range" and len(x.args[0].args) == 1]
+        other = [x for x in sides if x not in rng]
+        if len(rng) == 1 and len(other) == 1:
+            o = other[0]
+            if isinstance(o, _ast.Call) and _cn(o) in ("list", "tuple") and o.args:
+                o = o.args[0]
+            if isinstance(o, _ast.Name):
+                # the compared name must be the list used by the index(...) alternative (the group's source indices)
+                alt = _ast.unparse(st)
+                used_in_alt = o.id in {n.id for n in _ast.walk(st) if isinstance(n, _ast.Name)} and (f"{{{o.id}[0]}}" in alt or o.id in alt)
+                good = used_in_alt
+                why = f"`{o.id}` is not the index list of the alternative index(var, ...) input" if not good else ""
+            elif isinstance(o, _ast.Call):
+                why = f"the index list is wrapped in {_cn(o)}(...): permutations or repeated sources pass the test"
+    if good:
+        ctx.ok(rid, f, st, "whole-vector shortcut only when the group's source indices are exactly 0..N-1 in slot order", facts,
+               label="whole-vector chain input requires identity indices")
+    else:
+        ctx.violation(rid, f, st, f"the chain input falls back to the whole source vector under `{_norm(st)}`: {why}; slot i would then be "
+                                  f"fed by source element i instead of its own source", facts,
+                      label="whole-vector chain input requires identity indices")
+
+
 RULES = [
     ("C11-R1", r1_order_and_rate, 5),
     ("C11-R2", r2_stage_equations, 8),
     ("C11-R3", r3_grouping_key, 3),
     ("C11-R4", r4_delays_stay_continuous, 5),
+    ("C11-R5", r5_identity_shortcut, 1),
 ]
